@@ -336,6 +336,10 @@ def _random_ops(rng, width, length, partial, max_sections):
             if rng.random() < 0.15 and spec[0] >= 2:
                 first = text.split("\n")[0]
                 text = "<info>" + first[:1] + "</info>" + first[1:] + text[len(first):]
+            elif k >= 2 and spec[0] >= 1 and spec[1] >= 1 and rng.random() < 0.25:
+                # a style span that opens on the first line and closes on the second
+                parts = text.split("\n")
+                text = "\n".join(["<info>" + parts[0], parts[1][:1] + "</info>" + parts[1][1:]] + parts[2:])
             wide = wide or any(n > width for n in spec)
             ops.append((rng.choice(["w", "w", "o"]), s, text))
         elif r < 0.75:
